@@ -515,8 +515,15 @@ extern "C" {
   
 #endif
 
+#ifdef MYTH_VERIF
+  /* verification hook: when set, the recorder's clock is supplied by the verification harness */
+  extern unsigned long long (*dr_verif_clock)(void);
+#endif
   static dr_clock_t 
   dr_get_tsc() {
+#ifdef MYTH_VERIF
+    if (dr_verif_clock) return dr_verif_clock();
+#endif
     return dr_rdtsc();
   }
 
